@@ -316,7 +316,7 @@ def enc_value(v):
     return {"t": "other", "r": repr(v)[:80]}
 
 
-def main_wrapper(fn, prop):
+def main_wrapper(fn, prop, mod=None):
     import argparse
     ap = argparse.ArgumentParser()
     ap.add_argument("--tier", default=os.environ.get("VERIF_TIER", "quick"), choices=["quick", "thorough"])
@@ -327,7 +327,22 @@ def main_wrapper(fn, prop):
     ctx = Ctx(prop, a.tier, seed)
     try:
         ctx.snapshot()
-        rc = fn(ctx, a)
+        if a.replay:
+            data = json.loads(Path(a.replay).read_text())
+            print(json.dumps({k: v for k, v in data.items() if k != "more"}, indent=1, default=str))
+            if mod is not None and hasattr(mod, "replay"):
+                rc = mod.replay(ctx, data)
+            else:
+                print("(no single-case replay for this check: re-run ./check", prop, "to re-evaluate the whole family)")
+                rc = 0
+        elif a.selftest:
+            if mod is not None and hasattr(mod, "selftest"):
+                rc = mod.selftest(ctx, a)
+            else:
+                print("no selftest for", prop)
+                rc = 0
+        else:
+            rc = fn(ctx, a)
     except Machinery as e:
         print(f"MACHINERY-FAILURE property={prop}: {e}")
         rc = 2
